@@ -35,7 +35,7 @@ PROPS = {
     "C05": {
         "props_files": ["C05"],
         "theorems": ["pdu_roundtrip", "pdu_len", "payload_len_announced", "header_roundtrip",
-                     "uo_roundtrip", "uo_len", "report_roundtrip"],
+                     "uo_roundtrip", "uo_len", "report_roundtrip", "encodings_are_bytes"],
         "components": ["codec"],
         "rule": "cases = groups of <= 25 ops on the codec: E <PDU value> (encode + announced lengths), D <hex> (PDU::decode + "
                 "re-encoding), EU/DU (UserOperation), ER/DR (daemon::Report); values in an s-expression syntax. Streams: header sweep "
@@ -71,7 +71,10 @@ PROPS = {
         "rule": "cases = groups of <= 25 ops; malformed stream: all byte strings of length <= 4 over {00,01,22,7f,80,ff} (PDU) and "
                 "<= 3 (user operation after 'cfdp', Report), every truncation and every single-byte replacement by {00,01,7f,80,ff} of "
                 "valid encodings of every PDU kind x size flag x crc, of every user operation and of Report, the header length field "
-                "forced to {0,1,255,65535}, seeded random strings; plus the well-formed streams of C05; non-trivial = at least 2 ops; "
+                "forced to {0,1,255,65535}, seeded random strings; the same (valid, valid + trailing bytes, truncations, replacements, "
+                "short and random strings) for the public per-type decoders PDUHeader / Operations / FileDataPDU / MetadataTLV / "
+                "VariableID / FileStoreRequest / FileStoreResponse with the number of bytes consumed; a corpus of 17 494 UTF-8 boundary "
+                "file names; plus the well-formed streams of C05; non-trivial = at least 2 ops; "
                 "distinct = distinct op-list text",
         "explanation": "Theorems over the same decode functions: total on all byte strings with an explicit Panic outcome for what the "
                        "dev profile checks (u8+1, u16-2, unwrap, oversize allocation), accepted values well-formed and canonical. "
